@@ -187,7 +187,7 @@ def _run_case(case):
         cl = case['cl_too']
         res['probes']['chunked_with_content_length'] += 1
     o = body_request(wire, case['sched'], B=B, M=M, cl=cl, chunked=chunked, ctype=ctype, tempmode=case['temp'],
-                     touch=touch, endless=endless_pat, max_calls=max_calls, retry=bool(case.get('retry')))
+                     touch=touch, endless=endless_pat, max_calls=max_calls, retry=(3 if case.get('retry') else 0))
     if 'retry_body' in o.seen and (endless or (M is not None and len(body) > M)):
         violation(res, 'C13:refused-body-readable-on-retry',
                   f'a body refused for its size was handed out ({len(o.seen["retry_body"])} bytes) on the second access')
